@@ -42,11 +42,16 @@ type node struct {
 	is   [4]int64 // instance_step: from, to, step, stepDuration
 	runs []hrun   // huge leaves: run-length encoded offsets (huge.go)
 	huge int64    // != 0: this node holds a huge number of tokens (never enumerated, never drained)
+	g    string   // != "": a const leaf that is described by its rate (exact rational) instead of enumerated (big.go)
+	cnt  int64    // described leaf: how many tokens the real leaf says it holds
 }
 
 func (n *node) String() string {
 	switch n.kind {
 	case "F":
+		if n.g != "" {
+			return fmt.Sprintf("G%d:%s{%s}", n.dur, n.g, n.ctor)
+		}
 		if n.runs != nil {
 			return fmt.Sprintf("F%d[%s]{%s}", n.dur, n.runsString(), n.ctor)
 		}
@@ -271,6 +276,8 @@ func gen(r *rand.Rand, tier string) []string {
 	out = append(out, genNConc(r, tier)...)
 	out = append(out, genHuge(r, tier)...)
 	out = append(out, genLeafConc(r, tier)...)
+	out = append(out, genFac(r, tier)...)
+	out = append(out, genBig(r, tier)...)
 	return out
 }
 
@@ -349,6 +356,13 @@ func parseTree(s string) (*node, string) {
 			rest = rest[k+1:]
 		}
 		return n, rest
+	case strings.HasPrefix(s, "G"):
+		i := strings.IndexByte(s, ':')
+		j := strings.IndexByte(s, '{')
+		k := strings.IndexByte(s, '}')
+		n := &node{kind: "F", g: s[i+1 : j], ctor: s[j+1 : k]}
+		n.dur, _ = strconv.ParseInt(s[1:i], 10, 64)
+		return n, s[k+1:]
 	case strings.HasPrefix(s, "U"):
 		i := 1
 		for i < len(s) && (s[i] >= '0' && s[i] <= '9') {
@@ -457,6 +471,7 @@ func runSeq(m map[string]string) (obs string) {
 	if cb {
 		s = coreutil.NewCallbackOnFinishSchedule(s, func() { cbCalls.Add(1) })
 	}
+	var dg bigDigest
 	for _, op := range strings.Split(m["ops"], ",") {
 		switch {
 		case op == "S":
@@ -468,7 +483,11 @@ func runSeq(m map[string]string) (obs string) {
 			if ok {
 				b = 1
 			}
+			dg.note(tx)
 			res = append(res, fmt.Sprintf("N:%s:%d", fmtT(t0, tx), b))
+		case strings.HasPrefix(op, "D"):
+			k, _ := strconv.ParseInt(op[1:], 10, 64)
+			res = append(res, dg.batch(s, t0, k))
 		case op == "L":
 			res = append(res, fmt.Sprintf("L:%d", s.Left()))
 		case strings.HasPrefix(op, "A"):
@@ -515,6 +534,8 @@ func runMode(input string) string {
 		return runCbConc(m)
 	case "nconc":
 		return runNConc(m)
+	case "fac":
+		return runFac(m)
 	default:
 		return runSeq(m)
 	}
@@ -595,6 +616,15 @@ func main() {
 			}
 			if m["huge"] == "1" {
 				c += "/huge-token-counts"
+			}
+			if m["big"] == "1" {
+				c += "/described-const-parts-drained"
+			}
+			if m["mode"] == "fac" {
+				c += "/" + m["fty"] + "/k" + m["k"]
+				if strings.HasPrefix(m["tree"], "C(") && !strings.HasSuffix(m["tree"], "}") {
+					c += "/composite-root"
+				}
 			}
 			if m["cb"] == "1" {
 				c += "/callback"
